@@ -235,7 +235,7 @@ bool RadioTapParser::has_fields() const {
 
 bool RadioTapParser::has_field(RadioTap::PresentFlags flag) const {
     const uint8_t* ptr = start_;
-    while (ptr + sizeof(uint32_t) < end_) {
+    while (static_cast<size_t>(end_ - ptr) > sizeof(uint32_t)) {
         const RadioTapFlags* flags = (const RadioTapFlags*)ptr;
         if (is_field_set(flag, flags)) {
             return true;
